@@ -353,8 +353,10 @@ func (d *diff) CompareDiff(ctx context.Context, dl Remote) (newIds, ourChangedId
 }
 
 func (d *diff) compareResults(dctx *diffCtx, r Range, myRes, otherRes RangeResult) {
-	// both hash equals - do nothing
-	if bytes.Equal(myRes.Hash, otherRes.Hash) {
+	// both hash equals - do nothing; an empty hash means either an empty range or a range that
+	// is not tracked on that side (its elements are listed instead), so two empty hashes say
+	// nothing unless both sides are empty
+	if bytes.Equal(myRes.Hash, otherRes.Hash) && (len(myRes.Hash) != 0 || myRes.Count == 0 && otherRes.Count == 0) {
 		return
 	}
 
